@@ -17,8 +17,12 @@ RULE = (
     "retained = the last buffer_size values whose age (now - emission time) is <= window at subscription, then the terminal "
     "if one occurred, then every later notification; compared after EVERY command incl. each drain and a final drain "
     "(delivered lists exact; for an observer unsubscribed by ANOTHER observer during a drain: a prefix of its queue, no "
-    "shorter than before the drain, nothing after the unsubscribe). Non-trivial: some subscription's replay is a strict, "
-    "non-empty subset of the values emitted so far. "
+    "shorter than before the drain, nothing after the unsubscribe). reentrant / reentrant_enum: the same with "
+    "observers that call subject.on_next/on_completed/on_error from inside their k-th handler (one armed emitter per "
+    "history, other observers plain or unsubscribe-self): the emission joins the history at the current virtual time and "
+    "is queued to every current subscriber after what is already queued; after every drain nothing may be stranded. "
+    "Non-trivial: some subscription's replay is a strict, non-empty subset of the values emitted so far, or a re-entrant "
+    "emission was made. "
     "A third check (falsy_error, run last) repeats short histories in which on_error is given a valid exception object whose "
     "truth value is False (it defines __len__ == 0). Distinct = distinct case JSON."
 )
@@ -53,11 +57,29 @@ def _enum(tier):
     return enumerate_histories(_ALPHABET, cfgs, 5)
 
 
+_RE_ALPHABET = [
+    ["sub", {"k": "plain"}],
+    ["sub", {"k": "emit", "at": 0, "what": ["next", "i2"]}],
+    ["sub", {"k": "emit", "at": 1, "what": ["completed"]}],
+    ["next", "i1"],
+    ["adv", 0],
+    ["adv", 1],
+    ["unsub", 0],
+]
+
+
+def _re_enum(tier):
+    cfgs = [{"buf": b, "win": w} for b in (None, 1) for w in (None, 0)]
+    return enumerate_histories(_RE_ALPHABET, cfgs, 4 if tier == "quick" else 6)
+
+
 def checks(tier):
     n = 40 if tier == "quick" else 120
     return [
         Check("enum", _run, cases=_enum, shards={"quick": 8, "thorough": 16}, exhaustive=True),
         Check("gen", _run, strategy=histories("replay", n), examples={"quick": 3200, "thorough": 16 * 20000}, shards={"quick": 8, "thorough": 16}),
+        Check("reentrant_enum", _run, cases=_re_enum, shards={"quick": 8, "thorough": 16}, exhaustive=True),
+        Check("reentrant", _run, strategy=histories("replay", n, reentrant=True), examples={"quick": 1600, "thorough": 16 * 8000}, shards={"quick": 8, "thorough": 16}),
         # last on purpose: a failure here must not cut the two searches above short
         Check("falsy_error", _run, strategy=histories("replay", 12, falsy_error=True), examples={"quick": 400, "thorough": 16 * 1000}, shards={"quick": 1, "thorough": 16}),
     ]
